@@ -1040,6 +1040,12 @@ func kahnsAlgorithmUsingAuthEvents(events []*stateResV2ConflictedPowerLevel) []*
 	inDegree := make(map[string]int, len(events))
 
 	for _, event := range events {
+		// An event that is listed more than once counts once, otherwise the
+		// dependencies on its auth events would never reach zero.
+		if _, seen := eventMap[event.eventID]; seen {
+			continue
+		}
+
 		// For each event that we have been given, add it to the event map so that
 		// we can easily refer back to it by event ID later.
 		eventMap[event.eventID] = event
@@ -1126,6 +1132,12 @@ func kahnsAlgorithmUsingPrevEvents(events []*stateResV2ConflictedOther) []*state
 	inDegree := make(map[string]int, len(events))
 
 	for _, event := range events {
+		// An event that is listed more than once counts once, otherwise the
+		// dependencies on its prev events would never reach zero.
+		if _, seen := eventMap[event.eventID]; seen {
+			continue
+		}
+
 		// For each event that we have been given, add it to the event map so that
 		// we can easily refer back to it by event ID later.
 		eventMap[event.eventID] = event
